@@ -18,8 +18,76 @@ import (
 
 var failures []string
 
+// scope names the group of facts being extracted; every failure is tagged with it so that a
+// check only counts the failures of facts its property reads.
+var scope = "?"
+
 func failf(format string, a ...any) {
-	failures = append(failures, fmt.Sprintf(format, a...))
+	failures = append(failures, "["+scope+"] "+fmt.Sprintf(format, a...))
+}
+
+// pkgConsts: package-level string constants and string-typed variables with a literal value,
+// package-level string sets (map[string]bool / map[string]struct{} literals: the keys; []string
+// literals: the elements) of the files of one directory.
+type pkgDecls struct {
+	strs map[string]string
+	sets map[string][]string
+}
+
+func collectDecls(files ...*ast.File) *pkgDecls {
+	d := &pkgDecls{strs: map[string]string{}, sets: map[string][]string{}}
+	for _, f := range files {
+		if f == nil {
+			continue
+		}
+		for _, decl := range f.Decls {
+			gd, ok := decl.(*ast.GenDecl)
+			if !ok || (gd.Tok != token.CONST && gd.Tok != token.VAR) {
+				continue
+			}
+			for _, sp := range gd.Specs {
+				vs := sp.(*ast.ValueSpec)
+				for i, n := range vs.Names {
+					if i >= len(vs.Values) {
+						continue
+					}
+					if s, ok := strLit(vs.Values[i]); ok {
+						d.strs[n.Name] = s
+					}
+					if cl, ok := vs.Values[i].(*ast.CompositeLit); ok {
+						var elems []string
+						good := len(cl.Elts) > 0
+						for _, e := range cl.Elts {
+							if kv, ok := e.(*ast.KeyValueExpr); ok {
+								e = kv.Key
+							}
+							if s, ok := strLit(e); ok {
+								elems = append(elems, s)
+							} else {
+								good = false
+							}
+						}
+						if good {
+							d.sets[n.Name] = elems
+						}
+					}
+				}
+			}
+		}
+	}
+	return d
+}
+
+// strVal: a string literal, or an identifier naming a package-level string constant.
+func (d *pkgDecls) strVal(e ast.Expr) (string, bool) {
+	if s, ok := strLit(e); ok {
+		return s, true
+	}
+	if id, ok := e.(*ast.Ident); ok && d != nil {
+		s, ok := d.strs[id.Name]
+		return s, ok
+	}
+	return "", false
 }
 
 func leanStr(s string) string {
@@ -122,6 +190,7 @@ func main() {
 	}
 	fset := token.NewFileSet()
 	genTables(fset, repo, out)
+	scope = "template"
 	genTemplate(fset, repo, out)
 	genGlue(fset, repo, out)
 	if len(failures) > 0 {
@@ -142,45 +211,57 @@ func genTables(fset *token.FileSet, repo, out string) {
 	moqGo := parseFile(fset, filepath.Join(repo, "pkg/moq/moq.go"))
 	scopeGo := parseFile(fset, filepath.Join(repo, "internal/registry/method_scope.go"))
 
-	// reserved names: the string cases of `switch name` in varName, and the suffix appended
+	regDecls := collectDecls(varGo, pkgGo, scopeGo, parseFile(fset, filepath.Join(repo, "internal/registry/registry.go")))
+	tmplDecls := collectDecls(tmplGo)
+
+	// reserved names: the string cases of `switch name` in varName (or a package-level string set
+	// varName consults), and the suffix appended
+	scope = "tables.reserved"
 	var reserved []string
 	suffix := ""
 	if fd := findFunc(varGo, "varName"); fd != nil {
 		ast.Inspect(fd, func(n ast.Node) bool {
-			sw, ok := n.(*ast.SwitchStmt)
-			if !ok {
-				return true
-			}
-			if id, ok := sw.Tag.(*ast.Ident); !ok || id.Name != "name" {
-				return true
-			}
-			for _, st := range sw.Body.List {
-				cc := st.(*ast.CaseClause)
-				for _, e := range cc.List {
-					if s, ok := strLit(e); ok {
-						reserved = append(reserved, s)
-					} else {
-						failf("varName: non-literal case")
+			switch n := n.(type) {
+			case *ast.SwitchStmt:
+				if id, ok := n.Tag.(*ast.Ident); !ok || id.Name != "name" {
+					return true
+				}
+				for _, st := range n.Body.List {
+					cc := st.(*ast.CaseClause)
+					for _, e := range cc.List {
+						if s, ok := regDecls.strVal(e); ok {
+							reserved = append(reserved, s)
+						} else {
+							failf("varName: non-literal case")
+						}
 					}
 				}
-				for _, b := range cc.Body {
-					if as, ok := b.(*ast.AssignStmt); ok && as.Tok == token.ADD_ASSIGN {
-						if s, ok := strLit(as.Rhs[0]); ok {
+			case *ast.Ident:
+				if set, ok := regDecls.sets[n.Name]; ok && len(reserved) == 0 {
+					reserved = append(reserved, set...)
+				}
+			case *ast.AssignStmt:
+				if n.Tok == token.ADD_ASSIGN && len(n.Lhs) == 1 {
+					if id, ok := n.Lhs[0].(*ast.Ident); ok && id.Name == "name" {
+						if s, ok := regDecls.strVal(n.Rhs[0]); ok {
 							suffix = s
 						}
 					}
 				}
 			}
-			return false
+			return true
 		})
 	}
 	if len(reserved) == 0 {
-		failf("varName: reserved-name switch not found")
+		failf("varName: reserved-name switch or set not found; falling back to the table of the pinned commit")
+		reserved = strings.Fields(defaultReserved)
 	}
+	scope = "tables.suffix"
 	if suffix == "" {
-		failf("varName: suffix literal not found")
+		failf("varName: suffix not found; falling back to MoqParam")
+		suffix = "MoqParam"
 	}
-	// the same suffix literal must be what AddVar / resolveImportVarConflicts / varNameForType use
+	// the same suffix must be what AddVar / resolveImportVarConflicts / varNameForType append
 	for _, fn := range []struct {
 		f    *ast.File
 		name string
@@ -190,7 +271,7 @@ func genTables(fset *token.FileSet, repo, out string) {
 		if fd != nil {
 			ast.Inspect(fd, func(n ast.Node) bool {
 				if as, ok := n.(*ast.AssignStmt); ok && as.Tok == token.ADD_ASSIGN {
-					if s, ok := strLit(as.Rhs[0]); ok && s == suffix {
+					if s, ok := regDecls.strVal(as.Rhs[0]); ok && s == suffix {
 						found = true
 					}
 				}
@@ -203,31 +284,29 @@ func genTables(fset *token.FileSet, repo, out string) {
 	}
 
 	// initialisms
+	scope = "tables.initialisms"
 	var initialisms []string
-	if cl, ok := findVar(tmplGo, "golintInitialisms").(*ast.CompositeLit); ok {
-		for _, e := range cl.Elts {
-			if s, ok := strLit(e); ok {
-				initialisms = append(initialisms, s)
-			} else {
-				failf("golintInitialisms: non-literal element")
-			}
-		}
+	if set, ok := tmplDecls.sets["golintInitialisms"]; ok {
+		initialisms = set
 	} else {
-		failf("golintInitialisms not found")
+		failf("golintInitialisms not found or not a literal string set; falling back to golint's table")
+		initialisms = strings.Fields(defaultInitialisms)
 	}
 
 	// replacer pairs
+	scope = "tables.replacer"
 	var pairs []string
 	if call, ok := findVar(pkgGo, "replacer").(*ast.CallExpr); ok {
 		for _, a := range call.Args {
-			if s, ok := strLit(a); ok {
+			if s, ok := regDecls.strVal(a); ok {
 				pairs = append(pairs, s)
 			} else {
 				failf("replacer: non-literal argument")
 			}
 		}
 	} else {
-		failf("replacer not found")
+		failf("replacer not found; falling back to the pairs of the pinned commit")
+		pairs = []string{"go-", "", "-go", "", "-", "", "_", "", ".", "", "@", "", "+", "", "~", ""}
 	}
 	if len(pairs)%2 != 0 {
 		failf("replacer: odd number of arguments")
@@ -235,12 +314,13 @@ func genTables(fset *token.FileSet, repo, out string) {
 	}
 
 	// vendor separator
+	scope = "tables.vendor"
 	vendorSep := ""
 	if fd := findFunc(pkgGo, "stripVendorPath"); fd != nil {
 		ast.Inspect(fd, func(n ast.Node) bool {
 			if call, ok := n.(*ast.CallExpr); ok {
 				if sel, ok := call.Fun.(*ast.SelectorExpr); ok && sel.Sel.Name == "Split" && len(call.Args) == 2 {
-					if s, ok := strLit(call.Args[1]); ok {
+					if s, ok := regDecls.strVal(call.Args[1]); ok {
 						vendorSep = s
 					}
 				}
@@ -249,10 +329,13 @@ func genTables(fset *token.FileSet, repo, out string) {
 		})
 	}
 	if vendorSep == "" {
-		failf("stripVendorPath: separator not found")
+		failf("stripVendorPath: separator not found; falling back to /vendor/")
+		vendorSep = "/vendor/"
 	}
 
 	// result suffix: second argument of the AddVar call on sig.Results() in methodData
+	scope = "tables.outSuffix"
+	moqDecls := collectDecls(moqGo)
 	outSuffix := ""
 	paramSuffix := "?"
 	if fd := findFunc(moqGo, "methodData"); fd != nil {
@@ -266,7 +349,7 @@ func genTables(fset *token.FileSet, repo, out string) {
 				return true
 			}
 			src := exprString(fset, call.Args[0])
-			s, ok := strLit(call.Args[1])
+			s, ok := moqDecls.strVal(call.Args[1])
 			if !ok {
 				failf("methodData: AddVar suffix is not a literal")
 				return true
@@ -301,6 +384,17 @@ func genTables(fset *token.FileSet, repo, out string) {
 	b.WriteString("\nend Moq.Generated\n")
 	writeFile(filepath.Join(out, "Tables.lean"), b.String())
 }
+
+// tables of the pinned commit (after the fix: commits), used only when the source no longer has
+// a shape the extractor understands; the failure is still reported for the properties that
+// read the table, and the byte-level correspondence decides whether the fallback is right.
+const defaultReserved = `mock callInfo break default func interface select case defer go map struct
+chan else goto package switch const fallthrough if range type continue for import return var
+string bool byte rune uintptr int int8 int16 int32 int64 uint uint8 uint16 uint32 uint64
+float32 float64 complex64 complex128 error any nil append panic`
+
+const defaultInitialisms = `ACL API ASCII CPU CSS DNS EOF GUID HTML HTTP HTTPS ID IP JSON LHS QPS RAM RHS RPC SLA
+SMTP SQL SSH TCP TLS TTL UDP UI UID UUID URI URL UTF8 VM XML XMPP XSRF XSS`
 
 func exprString(fset *token.FileSet, e ast.Expr) string {
 	var b strings.Builder
